@@ -50,7 +50,7 @@ func frob(f *ofield.Fld, x ofield.El, k int) ofield.El {
 }
 
 var skipMethods = map[string]bool{"String": true, "Bytes": true, "Marshal": true, "Unmarshal": true, "SetBytes": true, "SetRandom": true,
-	"MustSetRandom": true, "SetString": true, "Bits": true, "Cmp": true, "LexicographicallyLargest": true, "SetOne": true, "SetZero": true}
+	"MustSetRandom": true, "SetString": true, "Bits": true, "Cmp": true, "SetOne": true, "SetZero": true}
 
 var sparseRe = regexp.MustCompile(`^MulBy([0-9]+)$`)
 
@@ -139,6 +139,16 @@ func (e *env) runType(ti *tinfo) {
 					want = f.IsZero(a.v)
 				case "IsOne":
 					want = f.IsOne(a.v)
+				case "LexicographicallyLargest":
+					// documented on the coordinates: the highest coordinate that is not zero decides, and it is "largest"
+					// when it exceeds (p-1)/2; for x != 0 exactly one of x, -x is largest (the sign bit of point encodings)
+					half := new(big.Int).Rsh(f.P, 1)
+					for k := len(a.v) - 1; k >= 0; k-- {
+						if a.v[k].Sign() != 0 {
+							want = a.v[k].Cmp(half) > 0
+							break
+						}
+					}
 				default:
 					continue
 				}
@@ -150,7 +160,7 @@ func (e *env) runType(ti *tinfo) {
 			}
 			if name == "IsInSubGroup" {
 				e.isInSubGroup(ti)
-			} else if name != "IsZero" && name != "IsOne" {
+			} else if name != "IsZero" && name != "IsOne" && name != "LexicographicallyLargest" {
 				e.unc[ti.Name+"."+name] = true
 			}
 			c.Class(e.N + "/" + ti.Name + "." + name)
